@@ -2756,6 +2756,34 @@ def r9_explicit_value_wins_over_cached_default(ctx, rid):
                             f"from the cached defaults on the pinned tree) - the completion has a form that is not recognised")
 
 
+
+# =====================================================================================================================
+# R10  an ownership record that licenses in-place writes is dropped wherever the owned objects get another holder
+# =====================================================================================================================
+
+def r10_ownership_record_dropped_on_hand_over(ctx, rid):
+    """Copy-on-write: a circuit that remembers "these node templates are mine" writes into them in place.  The memory is history:
+    once the templates are handed to another holder (a derived circuit built from this one's node table), an in-place write of the
+    first changes the second - a model inherits values from a model edited earlier.  So every method that passes the held templates
+    to a newly constructed circuit must empty the record on every path (analysis shared with C17-R8)."""
+    from .c17 import ownership_discipline
+    od = ownership_discipline(ctx, rid)
+    if od is None:
+        f = ctx.repo.get_func(CIRCUIT_T, "CircuitTemplate.update_var")
+        ctx.info(rid, f, f.node, "update_var keeps no ownership record: every node override is written into a fresh copy (C17-R8 / C07-R1)",
+                 label="no ownership record")
+        return
+    label = f"ownership record self.{od['record']} is dropped on hand-over"
+    if od["leaks"]:
+        for g, c, text in od["leaks"]:
+            ctx.violation(rid, g, c, f"{text}: {od['accessor'].qualname} keeps returning those templates for in-place writes, so a later "
+                          f"update_var on this circuit silently changes the circuit that was derived from it (and vice versa)", label=label)
+    else:
+        g = od["accessor"]
+        ctx.ok(rid, g, g.node, f"every method that hands the templates held in self.{'/'.join(sorted(od['holders']))} to a new circuit object "
+                               f"empties self.{od['record']} on every path", label=label)
+
+
 RULES = [
     ("C13-R1", r1_inventory, 25),
     ("C13-R2", r2_cache_keys, 5),
@@ -2766,4 +2794,5 @@ RULES = [
     ("C13-R7", r7_generator_reset_with_its_caches, 1),
     ("C13-R8", r8_process_global_precision_switch, 1),
     ("C13-R9", r9_explicit_value_wins_over_cached_default, 1),
+    ("C13-R10", r10_ownership_record_dropped_on_hand_over, 0),
 ]
